@@ -22,6 +22,10 @@
 
 import itertools
 from .yp_prolog_visitor import *
+from .errors import CompilerLimitError
+
+# CPython refuses more than this many statically nested blocks (for loops) in one function
+_MAX_NESTED_BLOCKS = 20
 
 class YPCodeExpr:
     def __init__(self,expr):
@@ -418,6 +422,8 @@ class YPPythonCodeGenerator:
     def __init__(self, context):
         self.context = context
         self.loop_level = 0
+        self.block_level = 0
+        self.current_function = ''
         self.tabwidth = 2
         self.indentation = 0
     def generate(self,code):
@@ -442,7 +448,10 @@ class YPPythonCodeGenerator:
         unset_break_code = self.l("doBreak = False")
         wrap_code = self.l("for _ in [1]:")
         self.indent()
+        self.current_function = f'{func.name}/{len(func.args)}'
+        self._enter_block()
         code = self.generate_code_list(func.body) or self.l("pass")
+        self._leave_block()
         self.dedent()
         # break_code = self.generate_break_code() # level <= 1, not needed
         false_yield_code = self.generate_code_list( [ YPCodeIf(YPCodeExpr(False),[YPCodeYieldFalse()]) ])
@@ -498,8 +507,10 @@ class YPPythonCodeGenerator:
         if bb.body != []:
             lines.append( self.l("for _ in [1]:") )
             self.indent()
+            self._enter_block()
         #      {{ body }}
             lines.extend( [ c.generate(self) for c in bb.body ] )
+            self._leave_block()
             self.dedent()
         ## endif
         #   if label:
@@ -536,8 +547,17 @@ class YPPythonCodeGenerator:
         return 'l'+str(self.loop_level+1)
     def _enter_loop(self):
         self.loop_level += 1
+        self._enter_block()
     def _leave_loop(self):
         self.loop_level -= 1
+        self._leave_block()
+    def _enter_block(self):
+        self.block_level += 1
+        if self.block_level > _MAX_NESTED_BLOCKS:
+            raise CompilerLimitError(getattr(self.context, 'current_source_file', ''),
+                f'clause of {self.current_function} is too large: more than {_MAX_NESTED_BLOCKS} nested goals')
+    def _leave_block(self):
+        self.block_level -= 1
     def indent(self):
         self.indentation += 1
     def dedent(self):
